@@ -100,9 +100,30 @@ Fixpoint c01_block_walk (inside : list nat) (h : hist) : bool :=
 Definition c01_producer_never_blocks (h : hist) : list tok :=
   check (c01_block_walk [] h) "producer:blocks".
 
+(* "... in particular never when at most max_queue_size records are produced between two completed flushes":
+   when a record is refused, more than Q records must have been offered to the queue since the ticket of the most recent
+   ForceFlush that returned true was taken (walker: attempts so far, per-thread attempts at the ticket, best completed). *)
+Fixpoint c01_budget_walk (q att : nat) (tk : list (nat * nat)) (done : option nat) (h : hist) : bool :=
+  match h with
+  | [] => true
+  | PEv _ (EBufAdd _ true) :: h' => c01_budget_walk q (S att) tk done h'
+  | PEv _ (EBufAdd _ false) :: h' =>
+      match done with
+      | Some a => Nat.ltb q (S att - a)
+      | None => true
+      end && c01_budget_walk q (S att) tk done h'
+  | PEv t (EFaddPending _) :: h' => c01_budget_walk q att ((t, att) :: filter (fun x => negb (Nat.eqb (fst x) t)) tk) done h'
+  | PEv t (ERetFlush true) :: h' =>
+      let a := last_of t tk in
+      c01_budget_walk q att tk (Some (match done with Some d => Nat.max d a | None => a end)) h'
+  | _ :: h' => c01_budget_walk q att tk done h'
+  end.
+Definition c01_no_drop_between_flushes (q : nat) (h : hist) : list tok :=
+  check (c01_budget_walk q 0 [] None h) "drop:within_flush_budget".
+
 Definition spec_c01 (q : nat) (h : hist) : list tok :=
-  c01_exactly_once h ++ c01_drop_only_when_full q h ++ c01_per_producer_order h ++ c01_no_loss h ++
-  c01_producer_never_blocks h.
+  c01_exactly_once h ++ c01_drop_only_when_full q h ++ c01_no_drop_between_flushes q h ++ c01_per_producer_order h ++
+  c01_no_loss h ++ c01_producer_never_blocks h.
 
 (* ------------------------------------------------------------------ C02 *)
 (* walker state: records accepted so far, records whose Export call has returned, the batch in flight,
